@@ -355,7 +355,7 @@ def C02(run):
 
 @prop('C03')
 def C03(run):
-    count_property(run, dict(rules=STAT + ['wigm'], keys=['C04q', 'C06r', 'C07b', 'C07l', 'C07t'], proj=proj_C03,
+    count_property(run, dict(rules=STAT + ['wigm'], keys=['C04q', 'C06r', 'C07b', 'C07l', 'C07t', 'C07s'], proj=proj_C03,
                              options_fn=wigm_fixed4, quick=5000, thorough=150000))
 
 
@@ -398,8 +398,8 @@ def retie_line(item):
 
 @prop('C07')
 def C07(run):
-    spec = dict(rules=ALL, keys=['EXC', 'C07b', 'C07l', 'C07t'], proj=proj_C07, quick=5000, thorough=150000,
-                families=['plain', 'symmetric', 'symmetric', 'sure_losers', 'on_quota', 'chains', 'few_supported'])
+    spec = dict(rules=ALL, keys=['EXC', 'C07b', 'C07l', 'C07t', 'C07s'], proj=proj_C07, quick=5000, thorough=150000,
+                families=['plain', 'symmetric', 'symmetric', 'sure_losers', 'on_quota', 'chains', 'few_supported', 'crossover'])
     count_property(run, spec)
     # when no tie is logged the record does not depend on the tie-break order (implementation vs implementation)
     rng = rng_for(run, 'retie')
